@@ -74,6 +74,10 @@ class Bench:
             return self.sim.apply_request(world.form_request("node-file-" + op[3], {"node_name": self.name, "folder_name": gname(op[1]), "file_name": fname(op[2])}))
         if k == "FolderVerb":
             return self.sim.apply_request(world.form_request("node-folder-" + op[2], {"node_name": self.name, "folder_name": gname(op[1])}))
+        if k == "PowerOff":
+            return self.sim.apply_request(["network", "node", self.name, "shutdown"])
+        if k == "PowerOn":
+            return self.sim.apply_request(["network", "node", self.name, "startup"])
         if k == "Tick":
             self.node.apply_timestep(self.t)
             self.t += 1
@@ -188,6 +192,12 @@ def gen_ops(rng, n):
             ops.append(("FolderVerb", g, rng.choice(("scan", "repair", "checkhash"))))
         else:
             ops += [("Tick",)] * rng.choice([1, 1, 2, 4])
+    if rng.random() < 0.3:
+        # the node is shut down in the same tick as the last requests and brought back later: the containers are untouched by
+        # power, and the per-tick counters still start every tick at zero
+        g, f = focus
+        ops.append(("CreateFile", g, f, False) if rng.random() < 0.5 else ("DeleteFile", g, f))
+        ops += [("PowerOff",)] + [("Tick",)] * rng.choice([1, 2, 5]) + [("PowerOn",)] + [("Tick",)] * rng.choice([1, 2, 5])
     return ops
 
 
@@ -235,6 +245,9 @@ def run_seq(ck, bench_seed, ops, coq_in, label):
             if existed and before[:-2] != after[:-2] and not (op[0] == "CreateFile" and op[3]):
                 ck.violation("fs-create-existing-changed-state", "%s on an existing item changed the file system" % (op,), dict(ctx, at=i))
         m = coq_op(op)
+        if op[0] == "Tick" and getattr(b, "_was_off", False):
+            m = Raw("TickOff")            # the tick began while the node was not ON: nothing in the file system progresses
+        b._was_off = b.node.operating_state.name != "ON"
         if m is not None:
             mops.append(m)
             out += [ST.get(getattr(resp, "status", "success"), 9) if resp is not None else 1] + after
